@@ -106,6 +106,14 @@ def race(case, res):
         for rnd in range(prm.get("rounds", 6)):
             k = rng.choice([1, 1, 2, 3])
             ps = []
+            if rng.random() < prm.get("timer_faults", 0.2):
+                # the deadline timer of one of the next requests cannot be created / armed: that request is refused at once,
+                # exactly once, and leaves nothing behind that the other events of this round could reach
+                import errno as E
+                S.inject_active = True
+                call = rng.choice(["timerfd_create", "timerfd_settime"])
+                S.sim.inject(call, rng.choice([1, 1, 2]), rng.choice([E.EMFILE, E.ENFILE, E.ENOMEM]) if call == "timerfd_create" else E.EINVAL)
+                S.sig("race-timer-fault", call)
             for i in range(k):
                 if rng.random() < 0.6:
                     ps.append(S.request(cal, "set", {"path": "r/s", "value": S.next_val(cal)}, idv=AUTO if rng.random() < 0.85 else None))
